@@ -56,6 +56,7 @@ func init() {
 			"the statement is about successful steps: chains are fault-free except for at most one failing upgrade per chain (one injected cluster-side fault: first mutating request for a release resource rejected, else readiness wait failed), which only serves to make the newest revision differ from the deployed one; the failing step's own values are not judged; simulated API server, scripted waiter",
 			"the currently deployed revision is the revision with status deployed (= the last step that succeeded); when a failing step leaves no revision marked deployed, it is the revision the last successful step created; rollback targets include failed revisions",
 			"flag combinations (flag-combination plans: all 8 subsets of reset/reuse/reset-then-reuse): Helm documents and implements reset-values > reuse-values > reset-then-reuse-values, a lower flag is ignored; the reference applies the statement's rule of the winning flag",
+			"uniformity clause (independent of the reading of null): with reuse / reset-then-reuse an explicit a: null over a previously recorded non-null a must end up in the same class (dropped | kept-as-null) whether the recorded value was a scalar or a map; the first observation of each (mode, kind) per worker is compared with the others",
 			"nil-values plans: \"no values\" is given in two spellings, an empty map and a nil map (Go API: Upgrade.Run(name, chart, nil)); both mean that no values were given",
 			"rollback-hook plans: the chart family carries a post-rollback hook; a failing rollback = the wait for that hook fails; like a failing upgrade it only sets up the following steps",
 			"null in new values is a value: overlay(old,new)[k]=new[k] (maps on both sides overlaid recursively); rendered values are compared with null-valued keys dropped on both sides",
@@ -68,7 +69,8 @@ func init() {
 			"failed-upgrade-recorded:reject", "failed-upgrade-recorded:wait-fail", "carry-from-deployed-not-latest", "defaults-from-deployed-not-latest", "rollback-to-failed-revision",
 			"empty-over-populated-depth1", "empty-over-populated-depth2", "populated-over-empty-depth1", "populated-over-empty-depth2", "empty-table-keeps-defaults",
 			"reset-wins-over-reuse", "reset-wins-over-reset-then-reuse", "reuse-wins-over-reset-then-reuse", "failed-rollback-recorded", "carry-after-failed-rollback",
-			"nil-values-carry:reuse", "nil-values-carry:reset-then-reuse", "nil-values-carry:default"},
+			"nil-values-carry:reuse", "nil-values-carry:reset-then-reuse", "nil-values-carry:default",
+			"null-over-recorded-scalar", "null-over-recorded-map"},
 	})
 }
 
@@ -515,11 +517,22 @@ type replayData struct {
 	opspace.Replay
 	Key  string `json:"key"`
 	Tier string `json:"tier"`
+	// Other: the second history of a null-uniformity violation (the two are compared).
+	Other *opspace.Replay `json:"other,omitempty"`
 }
 
 func replay(c *core.Ctx, data json.RawMessage) []core.Violation {
 	var rd replayData
 	if err := json.Unmarshal(data, &rd); err != nil {
+		return nil
+	}
+	if rd.Other != nil {
+		a, b := lastNull(rd.Replay), lastNull(*rd.Other)
+		if a != nil && b != nil {
+			if key, what := nullDiffers(*a, rd.Replay, *b, *rd.Other); key == rd.Key {
+				return []core.Violation{{Property: prop, Key: key, What: what, Replay: data}}
+			}
+		}
 		return nil
 	}
 	replayConfig(func(c *core.Ctx, t *opspace.Transition) {
@@ -787,6 +800,18 @@ type verdict struct {
 	Sample   any
 	NotExh   string // a condition outside the property stopped the evaluation
 	NoteText string
+	// Null: what happened to an explicit top-level a: null of the new values over a previously
+	// recorded non-null a (reuse / reset-then-reuse only); nil when the step is not such a case.
+	Null *nullObs
+}
+
+// nullObs is one observation for the uniformity clause: the treatment of an
+// explicit null must not depend on the type (scalar / map) of the value that
+// was recorded before - under any reading of "overlaid key by key".
+type nullObs struct {
+	Mode  string `json:"mode"`  // reuse | reset-then-reuse
+	Kind  string `json:"kind"`  // scalar | map: the deployed revision's a
+	Class string `json:"class"` // dropped | kept-as-null | kept-value: a in the new record
 }
 
 // evaluate is the oracle: pure function of the transition.
@@ -901,6 +926,18 @@ func evaluate(t *opspace.Transition) (v verdict) {
 		shape = "target-differs-from-deployed"
 		if canon(tgtCfg) == canon(depCfg) {
 			shape = "target-equals-deployed"
+		}
+	}
+
+	if av, given := nw["a"]; given && av == nil && (mode == "reuse" || mode == "reset-then-reuse") {
+		if k := kindOf(depCfg, "a"); k == "scalar" || k == "map" {
+			class := "kept-value"
+			if gv, has := got["a"]; !has {
+				class = "dropped"
+			} else if gv == nil {
+				class = "kept-as-null"
+			}
+			v.Null = &nullObs{Mode: mode, Kind: k, Class: class}
 		}
 	}
 
@@ -1125,6 +1162,24 @@ func apply(c *core.Ctx, t *opspace.Transition, v verdict, tier string, perKey ma
 	if v.Sample != nil {
 		c.Sample(v.Sample)
 	}
+	if v.Null != nil && perKey != nil {
+		// uniformity clause: compare with the first observation of the other kind in the same mode (this worker)
+		here := opspace.Replay{Driver: t.Driver, Init: t.Init, Path: t.Path}
+		if nullSeen[v.Null.Mode] == nil {
+			nullSeen[v.Null.Mode] = map[string]nullSeenAt{}
+		}
+		if _, ok := nullSeen[v.Null.Mode][v.Null.Kind]; !ok {
+			nullSeen[v.Null.Mode][v.Null.Kind] = nullSeenAt{*v.Null, here}
+		}
+		for kind, o := range nullSeen[v.Null.Mode] {
+			if kind != v.Null.Kind && o.Obs.Class != v.Null.Class {
+				key, what := nullDiffers(*v.Null, here, o.Obs, o.At)
+				other := o.At
+				c.Violate(prop, key, what, replayData{Replay: here, Key: key, Tier: tier, Other: &other})
+			}
+		}
+		c.Floor("null-over-recorded-" + v.Null.Kind)
+	}
 	for _, f := range v.Findings {
 		r := opspace.Replay{Driver: t.Driver, Init: t.Init, Path: t.Path}
 		what := f.What
@@ -1136,6 +1191,36 @@ func apply(c *core.Ctx, t *opspace.Transition, v verdict, tier string, perKey ma
 		}
 		c.Violate(prop, f.Key, what, replayData{Replay: r, Key: f.Key, Tier: tier})
 	}
+}
+
+type nullSeenAt struct {
+	Obs nullObs
+	At  opspace.Replay
+}
+
+// nullSeen: mode -> kind -> first observation by this worker (one worker = one goroutine).
+var nullSeen = map[string]map[string]nullSeenAt{}
+
+// lastNull replays a history and returns the null observation of its last step.
+func lastNull(r opspace.Replay) *nullObs {
+	var last verdict
+	replayConfig(func(_ *core.Ctx, t *opspace.Transition) { last = evaluate(t) }).ReplayPath(nil, r)
+	return last.Null
+}
+
+// nullDiffers builds key and message of a uniformity violation (kinds in fixed order).
+func nullDiffers(a nullObs, ar opspace.Replay, b nullObs, br opspace.Replay) (string, string) {
+	if a.Kind > b.Kind { // map before scalar
+		a, ar, b, br = b, br, a, ar
+	}
+	if a.Mode != b.Mode || a.Kind == b.Kind || a.Class == b.Class {
+		return "", ""
+	}
+	key := core.SanitizeKey(fmt.Sprintf("null-handling-depends-on-recorded-type|%s|%s=%s,%s=%s", a.Mode, a.Kind, a.Class, b.Kind, b.Class))
+	what := fmt.Sprintf("null-handling-depends-on-recorded-type: with %s, new values {a: null} over a recorded %s are %s in the new record but over a recorded %s they are %s "+
+		"[driver=%s install=%s history=%v] vs [driver=%s install=%s history=%v]", a.Mode, a.Kind, a.Class, b.Kind, b.Class,
+		ar.Driver, ar.Init, opspace.PathStrings(ar.Path), br.Driver, br.Init, opspace.PathStrings(br.Path))
+	return key, what
 }
 
 // lastFinding replays a history and returns the finding with the given key
